@@ -373,26 +373,24 @@ theorem len2_diag (G : M3 ℚ) (h01 : G.a01 = 0) (h02 : G.a02 = 0) (h10 : G.a10 
     len2 G v = G.a00 * (v.x * v.x) + G.a11 * (v.y * v.y) + G.a22 * (v.z * v.z) := by
   rw [len2_expand]; simp only [h01, h02, h10, h12, h20, h21]; ring
 
-theorem coord_small {g t : ℚ} {n : ℤ} (hg : 0 < g) (ht : |t| ≤ 1/2)
-    (hmin : g * ((t + n) * (t + n)) ≤ g * (t * t)) : n ∈ ([-1, 0, 1] : List Int) := by
-  have h1 : (t + n) * (t + n) ≤ t * t := le_of_mul_le_mul_left hmin hg
+/-- an integer `n` that makes `|t+n|` no larger than for `n−1` and `n+1` has `|n| ≤ 1` when `|t| ≤ 1` -/
+theorem coord_small {g t : ℚ} {n : ℤ} (hg : 0 < g) (ht : |t| ≤ 1)
+    (hm : g * ((t + n) * (t + n)) ≤ g * ((t + (n - 1)) * (t + (n - 1))))
+    (hp : g * ((t + n) * (t + n)) ≤ g * ((t + (n + 1)) * (t + (n + 1)))) : n ∈ ([-1, 0, 1] : List Int) := by
+  have h1 : (t + n) * (t + n) ≤ (t + (n - 1)) * (t + (n - 1)) := le_of_mul_le_mul_left hm hg
+  have h2 : (t + n) * (t + n) ≤ (t + (n + 1)) * (t + (n + 1)) := le_of_mul_le_mul_left hp hg
   have hb := abs_le.mp ht
-  have e : (t + n) * (t + n) - t * t = n * (2 * t + n) := by ring
-  have hprod : (n : ℚ) * (2 * t + n) ≤ 0 := by linarith
+  have u1 : 2 * (t + n) ≤ 1 := by nlinarith
+  have u2 : -1 ≤ 2 * (t + n) := by nlinarith
   have hlo : -1 ≤ n := by
     by_contra hlt
-    have h2 : n ≤ -2 := by omega
-    have h3 : (n : ℚ) ≤ -2 := by exact_mod_cast h2
-    have : 0 < (n : ℚ) * (2 * t + n) := mul_pos_of_neg_of_neg (by linarith) (by linarith)
+    have h3 : (n : ℚ) ≤ -2 := by exact_mod_cast (by omega : n ≤ -2)
     linarith
   have hhi : n ≤ 1 := by
     by_contra hlt
-    have h2 : 2 ≤ n := by omega
-    have h3 : (2 : ℚ) ≤ n := by exact_mod_cast h2
-    have : 0 < (n : ℚ) * (2 * t + n) := mul_pos (by linarith) (by linarith)
+    have h3 : (2 : ℚ) ≤ n := by exact_mod_cast (by omega : 2 ≤ n)
     linarith
   have : n = -1 ∨ n = 0 ∨ n = 1 := by omega
   rcases this with h | h | h <;> simp [h]
-
 
 end PhononModel.ShortestPairs
